@@ -53,6 +53,10 @@ pub struct WirePlan {
     pub corrupt: Option<(usize, u8)>,
     /// replace the length prefix of message i by one beyond the limit
     pub oversize_at: Option<usize>,
+    /// replace the length prefix of message i by a smaller one (seed for the new length): the
+    /// frame as delimited by its prefix is then a truncated message, with more bytes behind it
+    #[serde(default)]
+    pub understate_at: Option<(usize, u16)>,
 }
 
 fn real_msg(parts: &[PartSpec]) -> iroh_docs::sync::ProtocolMessage {
@@ -131,6 +135,7 @@ impl Scenario for Wire {
             cut: if mode == 0 || mode == 1 { Some(rng.urange(0, 700)) } else { None },
             corrupt: if mode == 2 || mode == 3 { Some((rng.urange(0, 700), 1 << rng.below(8))) } else { None },
             oversize_at: if mode == 4 { Some(rng.usize_below(n)) } else { None },
+            understate_at: if mode == 5 { Some((rng.usize_below(n), rng.below(65536) as u16)) } else { None },
         }
     }
 
@@ -174,10 +179,21 @@ async fn run_wire(plan: &WirePlan, cx: &mut Cx) -> Res {
     }
     let mut stream: Vec<u8> = Vec::new();
     let mut boundaries = Vec::new();
+    let mut understated: Option<usize> = None;
     for (i, f) in frames.iter().enumerate() {
         if plan.oversize_at == Some(i) {
             stream.extend(((iroh_docs::net::codec_verif::MAX_MESSAGE_SIZE as u32) + 1 + i as u32).to_be_bytes());
             stream.extend(&f[4..]);
+        } else if let (Some((at, seed)), true) = (plan.understate_at, f.len() > 5) {
+            if at == i {
+                let real = f.len() - 4;
+                let short = (seed as usize) % real; // 0 ..= real-1
+                stream.extend((short as u32).to_be_bytes());
+                stream.extend(&f[4..]);
+                understated = Some(i);
+            } else {
+                stream.extend(f);
+            }
         } else {
             stream.extend(f);
         }
@@ -199,6 +215,9 @@ async fn run_wire(plan: &WirePlan, cx: &mut Cx) -> Res {
     }
     if plan.oversize_at.is_some() {
         cx.fault("oversized_length_prefix");
+    }
+    if understated.is_some() {
+        cx.fault("understated_length_prefix");
     }
     let (_w, r, ctl) = pipe(plan.read_chunk, false);
     let out: Rc<RefCell<Vec<Result<Vec<u8>, String>>>> = Rc::new(RefCell::new(Vec::new()));
@@ -262,6 +281,20 @@ async fn run_wire(plan: &WirePlan, cx: &mut Cx) -> Res {
         return Ok(());
     }
     let cut = plan.cut.filter(|c| *c < clean_len);
+    if let Some(u) = understated {
+        // a strict prefix of a message encoding is never a complete message: the frame delimited
+        // by the understated prefix must be reported as an error, the ones before it decode
+        if oks.len() > u {
+            return Err(Violation::new("bogus-message/understated-prefix", format!("message {u} was framed with a length prefix shorter than its payload (more bytes follow); the reader produced {} messages instead of stopping with an error at it", oks.len())));
+        }
+        if oks.iter().zip(frames.iter()).any(|(a, b)| *a != b) {
+            return Err(Violation::new("roundtrip/changed", "a message before the damaged frame decoded differently".to_string()));
+        }
+        if errs == 0 {
+            return Err(Violation::new("truncated/not-reported", "a frame whose prefix understates its payload ended the stream without an error".to_string()));
+        }
+        return Ok(());
+    }
     if let Some(o) = plan.oversize_at {
         if cut.map(|c| c >= boundaries.get(o.wrapping_sub(1)).copied().unwrap_or(0) + 4).unwrap_or(true) {
             // the oversized prefix was fully delivered: messages before it decode, then an error
